@@ -58,9 +58,9 @@ func fillRandom(r *rand.Rand, v reflect.Value, extraLen, nSummaries int) {
 		n := 0
 		switch v.Type().Name() {
 		case "SyncCommitteePubkeys":
-			n = 512
+			n = int(gSpec.SYNC_COMMITTEE_SIZE)
 		case "SyncCommitteeBits":
-			n = 64
+			n = int(gSpec.SYNC_COMMITTEE_SIZE) / 8
 		case "ExtraData":
 			n = extraLen
 		case "HistoricalSummaries":
@@ -495,12 +495,12 @@ func runC14Generic(o *Out, r *rand.Rand, thorough bool) {
 	rangeLim := func(c specCodec) bool { return len(c.(*rangeCodec).r) <= 128 && withinBeaconLimits(c.(*rangeCodec).r) }
 	var rangeEncs [][]byte
 	counts := []int{0, 1, 2, 4, 127, 128, 129, 130}
-	for _, n := range counts {
+	rangeVal := func(n int, updates []tbeacon.ForkedLightClientUpdate, note string) {
 		rg := make(tbeacon.LightClientUpdateRange, n)
 		for i := range rg {
 			rg[i] = updates[(i+n)%len(updates)]
 		}
-		in := fmt.Sprintf("gval b.UpdateRange n=%d inlim=%s", n, b01s(n <= 128))
+		in := fmt.Sprintf("gval b.UpdateRange n=%d inlim=%s%s", n, b01s(n <= 128), note)
 		b, err, p := specEnc(&rangeCodec{r: rg})
 		switch {
 		case p:
@@ -524,11 +524,38 @@ func runC14Generic(o *Out, r *rand.Rand, thorough bool) {
 				}
 				o.Case(in, "enc=ok dec=ok eq="+b01s(eq)+" type=1 slot=1")
 			}
-			if n <= 4 {
+			if n <= 4 && note == "" {
 				rangeEncs = append(rangeEncs, b)
 			}
 		}
 	}
+	for _, n := range counts {
+		rangeVal(n, updates, "")
+	}
+	// the same containers under ANOTHER preset of the consensus spec (the spec is a parameter of every one of these codecs and
+	// of the beacon network that uses them): sync committees of 32 keys instead of 512, so every element has another size
+	func() {
+		defer func(s *common.Spec) { gSpec = s }(gSpec)
+		gSpec = configs.Minimal
+		var small []tbeacon.ForkedLightClientUpdate
+		for _, t := range gTypes() {
+			for _, d := range forkOrder {
+				for i := 0; i < 2; i++ {
+					obj := t.inner[d]()
+					extra := []int{0, 1, 31, 32}[r.Intn(4)]
+					fillRandom(r, reflect.ValueOf(obj), extra, 0)
+					if b := gvalForked(o, t, d, obj, true, fmt.Sprintf("extra=%d spec=minimal", extra)); b != nil && t.name == "b.ForkedUpdate" {
+						small = append(small, tbeacon.ForkedLightClientUpdate{ForkDigest: d, LightClientUpdate: obj})
+					}
+				}
+			}
+		}
+		if len(small) > 0 {
+			for _, n := range []int{0, 1, 2, 3, 5, 128, 129} {
+				rangeVal(n, small, " spec=minimal")
+			}
+		}
+	}()
 	for _, v := range loadVectors(repo, "light_client_updates_by_range.json") {
 		gbytesCase(o, "b.UpdateRange", "repo-vector", v, rangeFresh, rangeLim)
 		rangeEncs = append(rangeEncs, v)
